@@ -139,9 +139,11 @@ PROPS.update({
              ['abstract text theory T3: additive len/vis equations for str concatenation and repetition', 'pre-condition: bg_color is None at every call (true of all call sites in the repository)'], design_ref='8/C20'),
     'C13': P('other', 'contract-based deductive verification of the field-level inverse pairs: the five cell parsers of csv_io.py are proved against their specification, and for every default column the cell '
              'expression of write_csv (taken from the real AST) rendered by the csv writer and read back by the parser specification is proved equivalent to the field (None ~ empty text); the TaskRaw fields built by '
-             'tasks_to_raws are proved to be the task values, parent_id = id of the reported parent for all ids (0 and negative included). Level `other`: predecessor_ids join/split, custom columns, raws_to_wbs (rebuild of '
-             'hierarchy and links), the fix-point and BOM clauses are covered by the bounded stand-in only.',
-             ['__parse_predecessors', '__parse_header', 'read_csv / write_csv loops', 'raws_to_wbs', 'custom attribute columns'],
+             'tasks_to_raws are proved to be the task values, parent_id = id of the reported parent for all ids (0 and negative included). raws_to_wbs is proved to rebuild the HIERARCHY from the rows: one task per row with the row\'s id, every task below the task of its parent row (a root task of the new WBS '
+             'if the row names no parent, or a parent id that no row has), root tasks and siblings in row order - four loops over the proved contracts of Task.__init__, the parent setter, WBS.__init__ and the lookup by id '
+             '(domain: rows with pairwise different ids and without dependencies; a RuntimeError out of a mutator is allowed). '
+             'Level `other`: predecessor_ids join/split and the rebuild of the dependency links, custom columns, the reader / writer loops, the fix-point and BOM clauses are covered by the bounded stand-in only.',
+             ['__parse_predecessors', '__parse_header', 'read_csv / write_csv loops', 'raws_to_wbs for rows with dependencies (links)', 'custom attribute columns'],
              ['library contracts (L): csv.reader(csv.writer(rows)) = rows; csv renders None as empty, others by str(); float(str(x)) = x; int(str(i)) = i; strptime(strftime(d)) = d for day-precision dates 1969-2068 (enumerated completely in the thorough tier)'],
              ['min_start is not read back (known finding A-27)'], design_ref='8/C13'),
     'C12': P('other', 'contract-based deductive verification of the two memoised recursions of CriticalPathCalculator: __forward / __backward are proved (recursion by contract, termination by rank, loop invariants) to '
